@@ -125,6 +125,27 @@ func (o c08Opts) String() string {
 	return fmt.Sprintf("MaxResults=%d limit=%v(%v) MaxError=%v interiors=%v brute=%v", o.maxResults, float64(o.limit), o.hasLimit, float64(o.maxError), o.interiors, o.brute)
 }
 
+// c08Tol is the documented error of the library's point/edge distance primitive at distance d (squared
+// chord units), doubled: the search calls the primitive with a running limit, the scan without one, and
+// the two may legitimately round differently within that error.
+func c08Tol(d float64) float64 {
+	if d > 4 {
+		d = 4
+	}
+	if d < 0 {
+		d = 0
+	}
+	return 2*s2.VerifMinUpdateDistanceMaxError(s1.ChordAngle(d)) + 4*2.220446049250313e-16*d
+}
+
+func c08Near(a, b float64) bool {
+	m := a
+	if b > m {
+		m = b
+	}
+	return math.Abs(a-b) <= c08Tol(m)
+}
+
 type c08Res struct {
 	dist  float64
 	shape int32
@@ -157,10 +178,42 @@ func runC08(c *core.Ctx) {
 	c.Note("option_grid", len(grid))
 	opt0, brute0 := s2.VerifEdgeQueryPaths.Optimized, s2.VerifEdgeQueryPaths.BruteForce
 
+	// per-index targets derived from the index's own geometry: vertices, edge midpoints,
+	// 1-ulp neighbours of a vertex, antipodes (decisive for furthest-edge queries)
+	baseTargets := len(targets)
+	perIndex := make([][]int, len(indexes))
+	for ii, idx := range indexes {
+		var pts []s2.Point
+		for _, mk := range idx.shapes {
+			s := mk()
+			n := s.NumEdges()
+			step := n/core.Pick(c, 3, 8) + 1
+			for e := 0; e < n; e += step {
+				ed := s.Edge(e)
+				pts = append(pts, ed.V0, s2.Point{Vector: ed.V0.Mul(-1)})
+				if ed.V0 != ed.V1 {
+					pts = append(pts, s2.Interpolate(0.5, ed.V0, ed.V1))
+				}
+			}
+			if n > 0 {
+				pts = append(pts, lattice.PUlp(s.Edge(0).V1, 1)[5], lattice.PUlp(s.Edge(0).V1, 1)[20])
+			}
+		}
+		pts = lattice.Dedup(pts)
+		for k, p := range pts {
+			p := p
+			targets = append(targets, c08Target{fmt.Sprintf("point:own-geometry-%d-of-index-%d", k, ii), func() any { return s2.NewMinDistanceToPointTarget(p) }, func() any { return s2.NewMaxDistanceToPointTarget(p) }, &p})
+			perIndex[ii] = append(perIndex[ii], len(targets)-1)
+		}
+	}
+	c.Note("targets_from_own_geometry", len(targets)-baseTargets)
 	type job struct{ ii, ti int }
 	var jobs []job
 	for ii := range indexes {
-		for ti := range targets {
+		for ti := 0; ti < baseTargets; ti++ {
+			jobs = append(jobs, job{ii, ti})
+		}
+		for _, ti := range perIndex[ii] {
 			jobs = append(jobs, job{ii, ti})
 		}
 	}
@@ -307,11 +360,11 @@ func runC08(c *core.Ctx) {
 							if furthest {
 								lo, hi = float64(s1.ChordAngle(d).Sub(o.maxError)), d
 							}
-							if r.dist < lo || r.dist > hi {
+							if (r.dist < lo && !c08Near(r.dist, lo)) || (r.dist > hi && !c08Near(r.dist, hi)) {
 								c.Violate("find-edges", "wrong-answer", "a reported distance is not within MaxError of the distance of that edge (target using MaxError)", cas, map[string]any{"index": idx.name, "target": tg.name, "furthest": furthest, "options": o.String(), "shape": r.shape, "edge": r.edge, "reported": r.dist, "scan": d})
 							}
-						} else if d != r.dist {
-							c.Violate("find-edges", "wrong-answer", "a reported distance differs from the distance of that edge", cas, map[string]any{"index": idx.name, "target": tg.name, "furthest": furthest, "options": o.String(), "shape": r.shape, "edge": r.edge, "reported": r.dist, "scan": d})
+						} else if !c08Near(d, r.dist) {
+							c.Violate("find-edges", "wrong-answer", "a reported distance differs from the distance of that edge by more than the documented error of the distance primitive", cas, map[string]any{"index": idx.name, "target": tg.name, "furthest": furthest, "options": o.String(), "shape": r.shape, "edge": r.edge, "reported": r.dist, "scan": d})
 						}
 					}
 					if !usesMaxError {
@@ -319,8 +372,8 @@ func runC08(c *core.Ctx) {
 							bad("the number of results differs from the number of edges of the exhaustive scan that satisfy the options")
 						} else {
 							for i := range got {
-								if got[i].dist != cand[i].dist {
-									bad("the i-th reported distance differs from the i-th best distance of the exhaustive scan")
+								if !c08Near(got[i].dist, cand[i].dist) {
+									bad("the i-th reported distance differs from the i-th best distance of the exhaustive scan by more than the documented error of the distance primitive")
 									break
 								}
 							}
@@ -335,7 +388,7 @@ func runC08(c *core.Ctx) {
 							if furthest {
 								lim = float64(s1.ChordAngle(cand[i].dist).Sub(o.maxError))
 							}
-							if better(lim, got[i].dist) {
+							if better(lim, got[i].dist) && !c08Near(lim, got[i].dist) {
 								bad("with MaxError a reported distance is further than MaxError from the i-th optimum")
 								break
 							}
@@ -372,7 +425,7 @@ func runC08(c *core.Ctx) {
 				}
 				q, t := mkq()
 				c.Eval(1)
-				if got := float64(c08Distance(q, t)); got != best {
+				if got := float64(c08Distance(q, t)); !c08Near(got, best) {
 					c.Violate("thresholds", "wrong-answer", "Distance differs from the optimum of the exhaustive scan", []int{ii, ti, b2i(furthest)}, map[string]any{"index": idx.name, "target": tg.name, "furthest": furthest, "got": got, "want": best})
 				}
 				for _, lim := range []float64{best, math.Nextafter(best, 5), math.Nextafter(best, -1), best * 0.5, best*1.5 + 1e-9, 0, 4} {
@@ -383,12 +436,12 @@ func runC08(c *core.Ctx) {
 					q, t := mkq()
 					if furthest {
 						got := c08Greater(q, t, s1.ChordAngle(lim))
-						if want := best > lim; got != want {
+						if want := best > lim; got != want && !c08Near(best, lim) {
 							c.Violate("thresholds", "wrong-answer", "IsDistanceGreater differs from comparing the scan's optimum with the limit", []int{ii, ti, 1}, map[string]any{"index": idx.name, "target": tg.name, "limit": lim, "optimum": best, "got": got})
 						}
 					} else {
 						got := c08Less(q, t, s1.ChordAngle(lim))
-						if want := best < lim; got != want {
+						if want := best < lim; got != want && !c08Near(best, lim) {
 							c.Violate("thresholds", "wrong-answer", "IsDistanceLess differs from comparing the scan's optimum with the limit", []int{ii, ti, 0}, map[string]any{"index": idx.name, "target": tg.name, "limit": lim, "optimum": best, "got": got})
 						}
 						q2, t2 := mkq()
